@@ -78,4 +78,23 @@ theorem C03_src_get_remains_calls {G P : Type} (c : Cfg G P) (s : St G P) :
   rw [src_get_remains_calls]
   simp [Cfg.remains]
 
+/-- `_get_fitness` (however the objective values `value` were obtained - serially or through the worker pool): the
+    sign is applied exactly once, to every value, and the evaluation counter advances by the number of values -/
+theorem C05_src_get_fitness (calls sign : Int) (ph value : List Int) :
+    EA_get_fitness [calls] ph sign value = some [value.map (fun v => sign * v), [calls + (value.length : Int)]] :=
+  src_get_fitness calls sign ph value
+
+/-- ... which is `Cfg.fitOf` of the model (the single point of sign application the C05 duality theorem rests on),
+    the objective values being order keys with `key(-x) = -key(x)` -/
+theorem C05_src_get_fitness_is_fitOf {G P : Type} (c : Cfg G P) (phs : List P) (calls : Int) (ph : List Int) :
+    EA_get_fitness [calls] ph (if c.minimization then -1 else 1) (phs.map c.obj) =
+      some [phs.map c.fitOf, [calls + (phs.length : Int)]] := by
+  rw [C05_src_get_fitness]
+  cases hm : c.minimization <;> simp [Cfg.fitOf, hm]
+
+/-- C03: one call of `_get_fitness` on a population of `pop_size` individuals advances `_calls` by exactly `pop_size` -/
+theorem C03_src_get_fitness_counts (calls sign : Int) (ph value : List Int) :
+    ∃ f c, EA_get_fitness [calls] ph sign value = some [f, [c]] ∧ c = calls + (value.length : Int) ∧ f.length = value.length :=
+  ⟨_, _, C05_src_get_fitness calls sign ph value, rfl, by simp⟩
+
 end TFV.SrcTie
